@@ -44,7 +44,7 @@ type pairedCase struct {
 	name  string
 	owner *sim.Acct
 	mk    func(from *sim.Acct) sdk.Msg // the message, naming the victim's position, with `from` as the declared sender
-	prep  func()                      // optional: make the owner's control succeed (e.g. top up debt coins)
+	prep  func()                       // optional: make the owner's control succeed (e.g. top up debt coins)
 }
 
 // runPaired: non-owners must fail and leave no trace; then the owner must succeed on the very same state.
@@ -397,15 +397,92 @@ func c12Wasm(t *testing.T, rec *ev.Rec) {
 	}
 }
 
+// c12Classes: every comdex transaction message type registered in the application, with the reason why it is or
+// is not a message that "names a position" of somebody, and (for the owner-gated ones) the paired case that decides
+// it. A message type the registry knows and this table does not makes the run inconclusive, not green.
+var c12Classes = map[string]string{
+	// vaults: keyed by vault id, owner-gated
+	"vault.v1beta1.MsgDepositRequest": "paired:vault/deposit", "vault.v1beta1.MsgWithdrawRequest": "paired:vault/withdraw", "vault.v1beta1.MsgDrawRequest": "paired:vault/draw",
+	"vault.v1beta1.MsgRepayRequest": "paired:vault/repay", "vault.v1beta1.MsgDepositAndDrawRequest": "paired:vault/deposit-and-draw", "vault.v1beta1.MsgCloseRequest": "paired:vault/close",
+	"vault.v1beta1.MsgCreateRequest": "opens the signer's own position", "vault.v1beta1.MsgVaultInterestCalcRequest": "anyone may trigger accrual (moves nothing to or from the owner)",
+	"vault.v1beta1.MsgCreateStableMintRequest": "shared stable-mint vault: no owner", "vault.v1beta1.MsgDepositStableMintRequest": "shared stable-mint vault: no owner", "vault.v1beta1.MsgWithdrawStableMintRequest": "shared stable-mint vault: no owner",
+	// lockers
+	"locker.v1beta1.MsgDepositAssetRequest": "paired:locker/deposit", "locker.v1beta1.MsgWithdrawAssetRequest": "paired:locker/withdraw", "locker.v1beta1.MsgCloseLockerRequest": "paired:locker/close",
+	"locker.v1beta1.MsgCreateLockerRequest": "opens the signer's own position", "locker.v1beta1.MsgLockerRewardCalcRequest": "anyone may trigger accrual", "locker.v1beta1.MsgAddWhiteListedAssetRequest": "registered type without a message-service route (cannot be delivered)",
+	// limit bids and auctions
+	"auctionsV2.v1beta1.MsgWithdrawLimitBidRequest": "paired:limit-bid/withdraw", "auctionsV2.v1beta1.MsgCancelLimitBidRequest": "paired:limit-bid/cancel", "auctionsV2.v1beta1.MsgDepositLimitBidRequest": "opens / enlarges the signer's own position",
+	"auctionsV2.v1beta1.MsgPlaceMarketBidRequest": "a bid spends the signer's own coins", "auction.v1beta1.MsgPlaceDutchBidRequest": "a bid spends the signer's own coins", "auction.v1beta1.MsgPlaceDutchLendBidRequest": "a bid spends the signer's own coins",
+	"auction.v1beta1.MsgPlaceSurplusBidRequest": "a bid spends the signer's own coins", "auction.v1beta1.MsgPlaceDebtBidRequest": "a bid spends the signer's own coins",
+	// lend
+	"lend.v1beta1.MsgDeposit": "paired:lend/deposit", "lend.v1beta1.MsgWithdraw": "paired:lend/withdraw", "lend.v1beta1.MsgCloseLend": "paired:lend/close-lend", "lend.v1beta1.MsgBorrow": "paired:lend/borrow-against-foreign-lend",
+	"lend.v1beta1.MsgRepay": "paired:lend/repay", "lend.v1beta1.MsgDraw": "paired:lend/draw", "lend.v1beta1.MsgDepositBorrow": "paired:lend/deposit-borrow", "lend.v1beta1.MsgCloseBorrow": "paired:lend/close-borrow", "lend.v1beta1.MsgRepayWithdraw": "paired:lend/repay-withdraw",
+	"lend.v1beta1.MsgLend": "opens the signer's own position", "lend.v1beta1.MsgBorrowAlternate": "opens the signer's own positions", "lend.v1beta1.MsgCalculateInterestAndRewards": "keyed by the signer's address",
+	"lend.v1beta1.MsgFundModuleAccounts": "a donation of the signer's own coins", "lend.v1beta1.MsgFundReserveAccounts": "a donation of the signer's own coins",
+	// liquidity: orders are keyed by id, farms and pool coins by the signer's address
+	"liquidity.v1beta1.MsgCancelOrder": "paired:liquidity/cancel-order", "liquidity.v1beta1.MsgUnfarm": "paired:liquidity/unfarm", "liquidity.v1beta1.MsgUnfarmAndWithdraw": "keyed by the signer's address (same farm record as MsgUnfarm)",
+	"liquidity.v1beta1.MsgCancelAllOrders": "keyed by the signer's address (count check in c12Extra)", "liquidity.v1beta1.MsgCancelMMOrder": "keyed by the signer's address (count check in c12Extra)",
+	"liquidity.v1beta1.MsgWithdraw": "spends the signer's own pool coins", "liquidity.v1beta1.MsgDeposit": "opens the signer's own position", "liquidity.v1beta1.MsgDepositAndFarm": "opens the signer's own position", "liquidity.v1beta1.MsgFarm": "opens the signer's own position",
+	"liquidity.v1beta1.MsgLimitOrder": "opens the signer's own position", "liquidity.v1beta1.MsgMarketOrder": "opens the signer's own position", "liquidity.v1beta1.MsgMMOrder": "opens / replaces the signer's own orders",
+	"liquidity.v1beta1.MsgCreatePair": "permissionless by design (fee)", "liquidity.v1beta1.MsgCreatePool": "permissionless by design (fee)", "liquidity.v1beta1.MsgCreateRangedPool": "permissionless by design (fee)",
+	// liquidation: anyone may liquidate (C09 decides when)
+	"liquidation.v1beta1.MsgLiquidateVaultRequest": "anyone may liquidate an unsafe position (C09)", "liquidation.v1beta1.MsgLiquidateBorrowRequest": "anyone may liquidate an unsafe position (C09)",
+	"liquidationsV2.v1beta1.MsgLiquidateInternalKeeperRequest": "anyone may liquidate an unsafe position (C09)", "liquidationsV2.v1beta1.MsgLiquidateExternalKeeperRequest": "auctions the signer's own coins", "liquidationsV2.v1beta1.MsgAppReserveFundsRequest": "a donation of the signer's own coins",
+	// emergency controls and the rest
+	"esm.v1beta1.MsgKillRequest": "paired:kill-switch", "esm.v1beta1.MsgDepositESM": "spends the signer's own coins", "esm.v1beta1.MsgExecuteESM": "anyone may execute once the target is reached (statement C14)", "esm.v1beta1.MsgCollateralRedemptionRequest": "spends the signer's own coins",
+	"collector.v1beta1.MsgDeposit": "a donation of the signer's own coins", "asset.v1beta1.MsgAddAsset": "permissionless by design (fee)", "tokenmint.v1beta1.MsgMintNewTokensRequest": "mints the configured genesis supply to the configured recipient, once",
+	"rewards.v1beta1.MsgCreateGauge": "spends the signer's own coins", "rewards.v1beta1.ActivateExternalRewardsLockers": "spends the signer's own coins", "rewards.v1beta1.ActivateExternalRewardsVault": "spends the signer's own coins",
+	"rewards.v1beta1.ActivateExternalRewardsLend": "spends the signer's own coins", "rewards.v1beta1.ActivateExternalRewardsStableMint": "spends the signer's own coins",
+}
+
+// c12Registry enumerates the transaction message types the application registers and requires each to be classified.
+func c12Registry(rec *ev.Rec, c *sim.Chain) {
+	if ev.ShardNo() != 0 {
+		return
+	}
+	urls := c.App.InterfaceRegistry().ListImplementations("cosmos.base.v1beta1.Msg")
+	n, unknown := 0, 0
+	for _, u := range urls {
+		if !strings.HasPrefix(u, "/comdex.") {
+			continue
+		}
+		n++
+		cls, ok := c12Classes[strings.TrimPrefix(u, "/comdex.")]
+		if !ok {
+			unknown++
+			rec.Note("message type registered by the application but not classified by this check (no verdict on it): " + u)
+			continue
+		}
+		if strings.HasPrefix(cls, "paired:") {
+			rec.Count("owner_gated_message_types", 1)
+		}
+	}
+	rec.Count("message_types_enumerated", int64(n))
+	if unknown == 0 && n > 0 {
+		rec.Count("all_message_types_classified", 1)
+	}
+	rec.Floor("all_message_types_classified", 1)
+}
+
 func TestC12(t *testing.T) {
 	rec := ev.New("C12", "exploration", "paired execution on reachable states: every position-naming message (vault, locker, limit bid; orders/farms; lend/borrow) is delivered as a real signed tx by 3 non-owners (declared as themselves, and with a forged owner sender) - must fail with an identical full-state dump (auth store excluded) - and then by the owner on the very same state (positive control); kill switch admin vs non-admin; every variant of the custom contract message union (enumerated by reflection) x chain id {comdex-1, comdex-test3} x sender {designated, other network's contracts, random}. distinct = (message kind, control outcome) and (variant, chain id, control outcome)")
 	defer finish(t, rec)
-	rounds := ev.Pick(1, 4)
+	rounds := ev.Pick(3, 8)
 	for i := 0; i < rounds; i++ {
 		c12CDP(t, rec, i)
 	}
 	c12Wasm(t, rec)
 	c12Extra(t, rec)
+	func() {
+		c := sim.New(sim.Options{})
+		defer c.Close()
+		c12Registry(rec, c)
+	}()
+	// every owner-gated message type must have met its positive control at least once
+	for _, cls := range c12Classes {
+		if strings.HasPrefix(cls, "paired:") && cls != "paired:lend/borrow-against-foreign-lend" {
+			rec.Floor("live:"+strings.TrimPrefix(cls, "paired:"), 1)
+		}
+	}
 	rec.Floor("owner_controls_succeeded", 15)
 	rec.Floor("non_owner_attempts", 60)
 	rec.Floor("wasm_designated_controls_passed", 30)
